@@ -90,19 +90,32 @@ MORE2 = {
 }
 for _k, _v in MORE2.items():
     MORE[_k] = MORE.get(_k, "") + _v
+MORE3 = {
+ "C02": " Compatibility is sound: the whole of eq_complex, every arm in match order, against the meaning of types as sets of run-time values (accepted => every value of the supplied type is a value of the expected type; inductive step, the recursive calls by the induction hypothesis); soundness lemma of try_coerce_to_open; an import declares the names it binds (D82-D86, D89 repaired).",
+ "C03": " An undeclared name is a diagnostic (ident arm of parse_expr); map literal keys / values, re-assignment through a path and returned values are tested as (expected, supplied) without leniency; `[A, B...]` is a diagnostic.",
+ "C04": " The whole loader (MScriptFile::get_functions with its loop): the loaded functions are the fold of the record step over the records of the file, first byte to last (no I/O error assumed).",
+ "C06": " The leaves of the folding walk: `!e`, nil, typeof, literal values; calls, indexes, field accesses, names and maps are never constants.",
+ "C07": " Lexical lookup with the capture flag; the ident arm of parse_expr; Stack / Ctx frame operations; dependencies and supplies of Block / Function / Class / Import.",
+ "C08": " Handlers call_object, lookup, module_entry, load_self_export, export_special, ret_mod.",
+ "C13": " The map built-ins as arms of BuiltInFunction::run (len, contains_key, replace, remove, clear, clone, keys, values, pairs) and GcMap::keys / values / pairs; the closure chain of `pairs` verified as the loop it denotes.",
+ "C14": " chars (one string per character, in order) and to_str; a numeral prefix is followed by digits, `0x` is a prefix in radix 16 only (D87).",
+ "C16": " Parser::list_type returns for every child the grammar delivers; the cost discipline of the type comparison (components compared once per level: D88).",
+}
+for _k, _v in MORE3.items():
+    MORE[_k] = MORE.get(_k, "") + _v
 NOTES = {
- "C02": "the native operator table, the run-time operators and the listed parser functions; the non-list arms of eq_complex and soundness as one composed theorem are not decided",
- "C03": "pest API, lookups and sub-parsers abstract; diagnostics' position text and unknown-name faults are not decided",
+ "C02": "the native operator table, the run-time operators and the listed parser functions; eq_complex soundness is the inductive step with the induction hypothesis as an axiom (termination not proved), generics outside; soundness of the whole checker as one composed theorem is not decided",
+ "C03": "pest API, lookups and sub-parsers abstract; diagnostics' position text and unknown field / method faults are not decided",
  "C06": "numerals abstracted to their value (String -> value-carrying shim); machine * / % abstracted to uninterpreted deterministic operations shared with the spec; string / bool folding not covered",
  "C10": "class fields, the postfix steps of an assignment path and the marking of class / import idents as const are not under contract; scope push/pop discipline assumed",
  "C11": "RefCell<HashMap> as &mut finite map; the compile queue and path spelling are not covered",
- "C13": "gc/RefCell/std::Vec semantics assumed; keys/values/pairs order, then/finish of the bridges and composition over operation histories not covered",
- "C14": "K-t extraction of match arms; replace, contains, chars, reverse, to_str not covered; f64 sqrt / powf / powi and std numeral parsers are the definition of the result (uninterpreted)",
+ "C13": "gc/RefCell/std::Vec/HashMap semantics assumed (map iteration order unspecified, one order for keys/values/pairs); then/finish of the bridges and composition over operation histories not covered",
+ "C14": "K-t extraction of match arms; f64 sqrt / powf / powi, std numeral parsers, str::replace / contains and Display for Primitive are the definition of the result (uninterpreted)",
  "C15": "recursive compile_depth calls assumed to satisfy the same register frame contract; index / method-call receivers not covered",
  "C17": "as C05/C14; the text of Program::execute's report and process exit status are not covered",
  "C19": "libloading and the dylib ABI assumed; the error report text not covered",
- "C08": "gc cell semantics assumed; make_object / call_object / ld_self are not under contract",
- "C04": "strings as char sequences (UTF-8 layer not modelled); the loop around the record step and malformed records are not covered; std contracts assumed; rule table",
+ "C08": "gc cell semantics assumed; the rest of make_object and ld_self are not under contract",
+ "C04": "strings as char sequences (UTF-8 layer not modelled); I/O errors while reading and malformed records are not covered; std contracts assumed; rule table",
 }
 for k, extra in MORE.items():
     c = list(CLAIMS[k]); c[1] = c[1].rstrip().replace(" Statement-level typing checks of the parser are not yet under contract.", "") + extra; CLAIMS[k] = tuple(c)
